@@ -236,6 +236,17 @@ theorem fm_keeps_valid (ch : Nat → Nat → Nat) (prm : Coupe.Fm.Params) (capOp
         · cases hr
         · split at hr <;> cases hr
 
+/-- Non-vacuity of the corollaries: their hypotheses are met by concrete non-trivial inputs (the
+owners' own examples – the weighted 4-cycle of C07, the 8-path of C15, the D7 witness of C14). -/
+example : ∃ r, Coupe.Fm.run (fun _ _ => 0) ⟨none, none, 1, true⟩ (some 30) Coupe.Fm.g4 [5,7,11,13]
+    [0,1,0,1] = .ok r ∧ r.part.length = 4 ∧ ∀ i ∈ r.part, i ≤ 1 :=
+  fm_keeps_valid _ _ _ _ _ _ Coupe.Fm.valid_g4 (by decide) (by decide) (by decide)
+example : ∃ out, Coupe.Kl.run {} (Coupe.Kl.pathGraph 8) 8 none none 1 [0,1,0,1,0,1,0,1] = .ok out ∧
+    out.length = 8 ∧ ∀ x, x ∈ out ↔ x ∈ [0,1,0,1,0,1,0,1] :=
+  kl_keeps_valid _ _ _ _ _ _ ⟨by decide, by decide⟩ ⟨0, 1, by decide, by decide, by decide, by decide⟩
+example : Coupe.VnFirst.run { unsigned := true } [0,1,2,3,1,2,0] [1,5,1,3,3,1,5]
+    = .ok [0,2,2,3,1,2,0] 1 ∧ Coupe.Vn.maxId [0,1,2,3,1,2,0] = 3 := by decide
+
 end Coupe.C02
 
 #print axioms Coupe.C02.kmeans_ids_subset
